@@ -256,7 +256,7 @@ def show_log(l):
     return "[" + ", ".join("(" + " ".join(str(x) for x in e) + ")" for e in l) + "]"
 
 
-def check_paths(run, prog, env, oid, body, cases, kind, meta=None, max_paths=3000, log_filter=strip_schedule, solver_timeout_ms=30000,
+def check_paths(run, prog, env, oid, body, cases, kind, meta=None, max_paths=3000, log_filter=strip_schedule, solver_timeout_ms=120000,
                 mandatory_cases=None):
     """Explore every path of body(ex) -> result; on each path every spec case whose guard is consistent with the path condition must
     hold. Returns the obligation dict; counterexamples are in d['cex'] (the caller replays them natively before reporting)."""
